@@ -483,7 +483,8 @@ func Run(tier string) int {
 	// positions around the 8-byte output buffer of the string formatter
 	for L := 0; L <= 18; L++ {
 		for pos := 0; pos <= L; pos++ {
-			for _, c := range []string{"(", ")", "\\", "\r", "\n", "\r\n", "\n\r", "()", ")("} {
+			// (the last five: a control byte followed by octal digits, in a string that stays literal under OptPretty)
+			for _, c := range []string{"(", ")", "\\", "\r", "\n", "\r\n", "\n\r", "()", ")(", "\x001", "\x0012", "\x1f7", "\x0807", "\x7f1"} {
 				s := bytes.Repeat([]byte{'a'}, L)
 				s = append(s[:pos:pos], append([]byte(c), s[pos:]...)...)
 				strs = append(strs, pdf.String(s))
